@@ -18,17 +18,20 @@ structure Obj where
   key : Option Nat
   /-- identity of the `_property_cache` dict the object holds -/
   dict : Nat
-  /-- phase views (`ms[phase]`) whose caches `MultiStream.reset_cache` also resets -/
-  views : List Nat
+  /-- identity of the `_streams` dict (phase views `ms[phase]`) whose members' caches
+  `MultiStream.reset_cache` also resets; a proxy of a MultiStream holds the same dict -/
+  views : Nat
   deriving Repr
 
 structure World where
   objs : List Obj
   /-- dict id ↦ entries `name ↦ key id at which the stored value was computed` -/
   dicts : List (List (String × Nat))
+  /-- `_streams` dict id ↦ the view objects registered in it -/
+  vlists : List (List Nat)
   deriving Repr
 
-def World.init : World := { objs := [], dicts := [] }
+def World.init : World := { objs := [], dicts := [], vlists := [] }
 
 def World.obj? (w : World) (o : Nat) : Option Obj := w.objs[o]?
 
@@ -47,7 +50,10 @@ def World.newDict (w : World) : World × Nat :=
 `flow_proxy`, `from_data`, unpickling). -/
 def World.newObj (w : World) : World × Nat :=
   let (w1, d) := w.newDict
-  ({ w1 with objs := w1.objs ++ [{ key := none, dict := d, views := [] }] }, w1.objs.length)
+  ({ w1 with objs := w1.objs ++ [{ key := none, dict := d, views := w1.vlists.length }],
+             vlists := w1.vlists ++ [[]] }, w1.objs.length)
+
+def World.viewsOf (w : World) (x : Obj) : List Nat := w.vlists.getD x.views []
 
 /-- `Stream.reset_cache()`: a *new* dict is bound and the key forgotten. -/
 def World.resetOne (w : World) (o : Nat) : World :=
@@ -61,18 +67,23 @@ def World.resetOne (w : World) (o : Nat) : World :=
 def World.reset (w : World) (o : Nat) : World :=
   match w.obj? o with
   | none => w
-  | some x => (x.views.foldl World.resetOne w).resetOne o
+  | some x => ((w.viewsOf x).foldl World.resetOne w).resetOne o
 
 /-- `Stream.proxy()`: the proxy gets its own empty memo (the repaired behaviour; the
-original code shared the dict but not the key). -/
-def World.proxy (w : World) (_o : Nat) : World × Nat := w.newObj
+original code shared the dict but not the key).  The proxy of a MultiStream holds the
+original's `_streams` dict. -/
+def World.proxy (w : World) (o : Nat) : World × Nat :=
+  let (w1, p) := w.newObj
+  match w1.obj? o, w1.obj? p with
+  | some x, some y => (w1.setObj p { y with views := x.views }, p)
+  | _, _ => (w1, p)
 
 /-- `MultiStream.__getitem__(phase)` on first access: a view object with its own memo. -/
 def World.view (w : World) (o : Nat) : World × Nat :=
   let (w1, v) := w.newObj
   match w1.obj? o with
   | none => (w1, v)
-  | some x => (w1.setObj o { x with views := x.views ++ [v] }, v)
+  | some x => ({ w1 with vlists := w1.vlists.set x.views (w1.viewsOf x ++ [v]) }, v)
 
 /-- Mutators of the observable state.  Only some of them touch the memo. -/
 inductive Mut where
@@ -82,8 +93,11 @@ inductive Mut where
   | state
   /-- `unlink`, `MultiStream.phases = <different set>`, `_reset_thermo(<other package>)`: `reset_cache()` -/
   | resets
-  /-- `MultiStream.phase = x` (collapse to single phase): views are forgotten, memo untouched -/
+  /-- `MultiStream.phase = x` (collapse to single phase): `_streams.clear()` — the (possibly
+  shared) view dict is emptied in place, memo untouched -/
   | collapse
+  /-- `Stream.phases = <several>` (single → multi): a new empty `_streams` dict is bound, memo untouched -/
+  | rebind
   deriving DecidableEq, Repr
 
 def World.mut (w : World) (o : Nat) : Mut → World
@@ -92,7 +106,11 @@ def World.mut (w : World) (o : Nat) : Mut → World
   | .collapse =>
     match w.obj? o with
     | none => w
-    | some x => w.setObj o { x with views := [] }
+    | some x => { w with vlists := w.vlists.set x.views [] }
+  | .rebind =>
+    match w.obj? o with
+    | none => w
+    | some x => { (w.setObj o { x with views := w.vlists.length }) with vlists := w.vlists ++ [[]] }
 
 inductive Outcome where
   | hit | miss
